@@ -85,7 +85,12 @@ def _sampler_case(draw):
     K = draw(st.integers(1, n))
     pos = st.sampled_from([1.0, 0.01, 2.5, 50.0, 1e-3]) | st.floats(1e-3, 50.0)
     eta = draw(st.sampled_from([0.5, 1e-12, 1 - 1e-12, 0.999, 1e-3]) | st.floats(1e-9, 1 - 1e-9))
-    return dict(kind="sampler", a=draw(pos), b=draw(pos), alpha=draw(pos), K=K, n=n, eta=float(eta), z=draw(st.integers(0, 1)), g=draw(st.sampled_from([1.0, 1e-14, 3.7, 25.0]) | st.floats(1e-12, 60.0)))
+    pre = []
+    for _ in range(draw(st.sampled_from([0, 1, 0, 2]))):
+        same = draw(st.sampled_from([True, True, False]))
+        pn = n if same else draw(st.integers(1, 200))
+        pre.append([draw(pos), K if same else draw(st.integers(1, pn)), pn])
+    return dict(kind="sampler", a=draw(pos), b=draw(pos), alpha=draw(pos), K=K, n=n, eta=float(eta), z=draw(st.integers(0, 1)), g=draw(st.sampled_from([1.0, 1e-14, 3.7, 25.0]) | st.floats(1e-12, 60.0)), pre=pre)
 
 
 @st.composite
@@ -120,12 +125,16 @@ def log_weights_closed(a, b, K, n, eta):
     return lw1, lw2, r
 
 
-def params_from_code(a, b, alpha, K, n, eta, z, g=1.0):
-    """run the real sampler with scripted draws; return (log, new_value)"""
+def params_from_code(a, b, alpha, K, n, eta, z, g=1.0, pre_calls=()):
+    """run the real sampler with scripted draws; return (log, new_value).  `pre_calls`: earlier (alpha, K, n) updates on
+    the SAME sampler object (one sampler lives for a whole chain), whose draws are discarded"""
     from phyclone.mcmc.concentration import GammaPriorConcentrationSampler
 
     rng = RecordingGenerator(dict(eta=eta, z=z, g=g))
     s = GammaPriorConcentrationSampler(a, b, rng=rng)
+    for (pa, pk, pn) in pre_calls:
+        s.sample(pa, pk, pn)
+    del rng.log[:]
     new = s.sample(alpha, K, n)
     return rng.log, float(new)
 
@@ -134,7 +143,7 @@ def _sampler(case, quad=False):
     a, b, alpha, K, n, eta, z, g = (case[k] for k in ("a", "b", "alpha", "K", "n", "eta", "z", "g"))
     tags = dict(K=K, n=n, z=z)
     try:
-        log, new = params_from_code(a, b, alpha, K, n, eta, z, g)
+        log, new = params_from_code(a, b, alpha, K, n, eta, z, g, pre_calls=[tuple(p) for p in case.get("pre", [])])
     except Exception as e:
         raise crash_violation("sample", e, tags)
     betas = [l for l in log if l[0] == "beta"]
@@ -172,6 +181,8 @@ def _sampler(case, quad=False):
     if not close(new, new_exp, 1e-9) and not (new_exp <= 1e-10 and new <= 1e-9):
         raise Violation("mixture/rate", "returned value %r, expected variate/(b - log eta) = %r" % (new, new_exp), tags)
     classes = ["kind:sampler", "z=%d" % z, "K>=2" if K >= 2 else "K=1"]
+    if case.get("pre"):
+        classes.append("earlier-updates-on-same-sampler")
     if eta < 1e-6 or eta > 1 - 1e-6:
         classes.append("eta-extreme")
     return Outcome(nontrivial=K >= 2, classes=tuple(classes), info=case)
